@@ -37,6 +37,13 @@ def gen_case(rng):
     for i in range(n):
         fin, ntf = rng.random() < 0.6, rng.random() < 0.7
         calls.append({"fin": fin, "ntf": ntf, "sent": 0, "cancelled": False})
+        if rng.random() < 0.18:
+            # a send that fails after the message got its serial (the application's add-timeout function refuses once); the application
+            # gives up, or tries again with the very same message
+            ops.append("pc failsend")
+            if rng.random() < 0.7:
+                ops.append("pc retry %d %d" % (fin, ntf))
+                continue
         if rng.random() < 0.2:
             # serial chosen by the application, including values with the top bit set
             ops.append("pc sendser %d %d %d" % (rng.choice([0x80000000, 0x80000001, 0xfffffffe, 0xffffffff, 0x7fffffff, 1000]) - i * 3, fin, ntf))
